@@ -690,6 +690,11 @@ func (r *retryableAuthMethod) auth(session []byte, user string, c packetConn, ra
 		if ok != authFailure || err != nil { // either success, partial success or error terminate
 			return ok, methods, err
 		}
+		// The server's answer lists the methods that can continue; do not
+		// retry if it no longer names this one.
+		if methods != nil && !slices.Contains(methods, r.method()) {
+			return ok, methods, err
+		}
 	}
 	return ok, methods, err
 }
